@@ -576,7 +576,8 @@ def vary(draw, pd, body):
 # --------------------------------------------------------------------------
 
 ELEMENTS = ["Al", "Cu", "Ni", "Fe", "O", "U", "Si", "Mg", "Gd", "Ce", "Ag", "Zr", "H", "Xe"]
-INVENTED = ["A", "B", "Xx", "Q1", "Mg2+", "core", "shl", "Zz_a", "M+"]
+# labels are case-sensitive: "al"/"CU"/"b" are species of their own beside Al, Cu and B
+INVENTED = ["A", "B", "Xx", "Q1", "Mg2+", "core", "shl", "Zz_a", "M+", "al", "CU", "b"]
 
 
 def species_labels(n_min=1, n_max=4, pool=None):
